@@ -880,6 +880,9 @@ class QvmCpu:
 
     def _exec_errres(self):
         # RESUME
+        if not self.error_handler_active:
+            self.trap(TrapCode.CANNOT_RESUME,
+                      msg='RESUME without an error being handled')
         if self.module.debug_info is None:
             self.trap(TrapCode.CANNOT_RESUME,
                       msg='Cannot resume without debug info')
@@ -893,6 +896,9 @@ class QvmCpu:
 
     def _exec_errresn(self):
         # RESUME NEXT
+        if not self.error_handler_active and self.trap_target != 'next':
+            self.trap(TrapCode.CANNOT_RESUME,
+                      msg='RESUME NEXT without an error being handled')
         if self.module.debug_info is None:
             self.trap(TrapCode.CANNOT_RESUME,
                       msg='Cannot resume without debug info')
@@ -1262,6 +1268,8 @@ class QvmCpu:
 
     def _exec_pop(self):
         # RETURN <label>: throws away the GOSUB's return address
+        if self.cur_frame is None or self.cur_frame.gosub_depth == 0:
+            self.trap(TrapCode.RETURN_WITHOUT_GOSUB)
         self.pop()
         self._gosub_returned()
 
@@ -1284,10 +1292,20 @@ class QvmCpu:
                 self.cur_frame is not None and
                 self.cur_frame.prev_frame is None)
 
+    def _drop_pending_gosubs(self):
+        # leaving a routine (EXIT SUB, END SUB, EXIT FUNCTION) from
+        # inside one of its GOSUB subroutines: the return addresses of
+        # the GOSUBs still pending lie on top of the routine's own
+        frame = self.cur_frame
+        while frame is not None and frame.gosub_depth > 0:
+            self.pop(CellType.LONG)
+            frame.gosub_depth -= 1
+
     def _exec_ret(self):
         if self._handler_frame_returns():
             self.trap(TrapCode.NO_RESUME)
 
+        self._drop_pending_gosubs()
         self.cur_frame.destroy()
         self.cur_frame = self.cur_frame.prev_frame
         ret_addr = self.pop(CellType.LONG)
@@ -1297,12 +1315,13 @@ class QvmCpu:
         if self._handler_frame_returns():
             self.trap(TrapCode.NO_RESUME)
 
-        self.cur_frame.destroy()
-        self.cur_frame = self.cur_frame.prev_frame
-
         retval = self.pop()
         if retval.type == CellType.REFERENCE:
             retval = retval.value.derefed()
+
+        self._drop_pending_gosubs()
+        self.cur_frame.destroy()
+        self.cur_frame = self.cur_frame.prev_frame
 
         ret_addr = self.pop(CellType.LONG)
         self.pc = ret_addr
